@@ -12,6 +12,18 @@ Proof. vm_compute. reflexivity. Qed.
 Lemma bloom_documented_safe_present : forallb (has_exported bloom_methods) bloom_documented_safe = true.
 Proof. vm_compute. reflexivity. Qed.
 
+(* exactly one mutex field (Lock events do not name the mutex), no field of the type touched by code that is not one
+   of its methods (package-level functions, methods of other types: they would bypass the per-method discipline),
+   no package-level variable mentioned by any method of the two types (cross-filter shared state) *)
+Lemma bloom_single_mutex : single_mutex bloom_mutex_fields = true.
+Proof. vm_compute. reflexivity. Qed.
+
+Lemma bloom_fields_private : bloom_outside_accesses = [].
+Proof. reflexivity. Qed.
+
+Lemma no_package_level_state : no_globals (bloom_methods ++ gcs_methods) = true.
+Proof. vm_compute. reflexivity. Qed.
+
 (* no translator give-ups anywhere in the two types *)
 Definition is_unsupported (e : event) : bool := match e with Unsupported _ => true | _ => false end.
 Lemma nothing_unsupported :
